@@ -272,6 +272,48 @@ def check_case(t, shape, assign, targets, light, only=None):
     t.sample(dict(ctx, methods=[mn for mn, _ in methods(light)]), cap=2)
 
 
+def check_slotted_hierarchy(t, shape):
+    """Slotted class hierarchies, both first-use orders (fresh classes each time): a subclass adding a slot must keep
+    it in every copy, whichever class was serialised first in the process."""
+    from .. import pickcls
+
+    m = tree.Model.from_shape(shape)
+    for first_is_base in (True, False):
+        for meth_name, meth in methods(True):
+            item, weighted = pickcls.fresh_slotted_pair()
+            # tree A: base-class root with subclass descendants; tree B: the other way round
+            def mk(root_cls, other_cls):
+                nodes = [(root_cls if i == 0 else other_cls)("n%d" % i, ["d", i]) for i in range(m.n)]
+                for i, nd in enumerate(nodes):
+                    if isinstance(nd, weighted):
+                        nd.weight = 10 + i
+                    if m.par[i] is not None:
+                        nd.parent = nodes[m.par[i]]
+                return nodes
+            order = [mk(item, weighted), mk(weighted, item)]
+            if not first_is_base:
+                order.reverse()
+            for nodes in order:
+                for entry in (0, m.n - 1):
+                    cp = meth(nodes[entry])
+                    croot = root_of(cp)
+                    pairs, why = [], []
+                    if croot is None:
+                        why = ["no root"]
+                    else:
+                        walk_pairs(nodes[0], croot, pairs, why)
+                    t.c["evaluations"] += 1
+                    t.c["slotted_hierarchy_copies"] += 1
+                    for o, c in pairs:
+                        if isinstance(o, weighted) and getattr(c, "weight", "<lost>") != o.weight:
+                            why.append("slot 'weight' of the subclass is lost in the copy")
+                    if why:
+                        t.violation("C19: " + why[0], {"engine": "E2", "module": MOD, "part": "slotted", "shape": shape,
+                                                       "first_serialised": "base class" if first_is_base else "subclass",
+                                                       "method": meth_name, "entry": entry})
+                        return
+
+
 def cases(n, max_links):
     out = []
     for shape in tree.plane_trees(n):
@@ -291,6 +333,8 @@ def cases(n, max_links):
 def job(items):
     t = core.Tally()
     for shape, assign, targets, light in items:
+        if light and len(assign) >= 2:
+            core.guard(t, "C19", {"engine": "E2", "module": MOD, "part": "slotted", "shape": shape}, check_slotted_hierarchy, t, shape)
         core.guard(t, "C19", {"engine": "E2", "module": MOD, "shape": shape, "assign": list(assign),
                               "targets": {str(k): list(v) for k, v in targets.items()}, "light": light},
                    check_case, t, shape, assign, targets, light)
@@ -303,6 +347,9 @@ def _tup(x):
 
 def replay(c):
     t = core.Tally()
+    if c.get("part") == "slotted":
+        check_slotted_hierarchy(t, _tup(c["shape"]))
+        return [v["why"] for v in t.violations]
     targets = {int(k): tuple(v) for k, v in c["targets"].items()}
     only = (c["entry"], c["method"]) if "entry" in c else None
     check_case(t, _tup(c["shape"]), tuple(c["assign"]), targets, c["light"], only)
@@ -329,5 +376,6 @@ def run(tier):
         "bounds": {"cases": len(items)},
     }
     return {"tally": t, "coverage": cov,
-            "guards": ("copies", "nontrivial", "copies_with_symlinks", "mutations_of_copies", "mutations_of_originals"),
+            "guards": ("copies", "nontrivial", "copies_with_symlinks", "mutations_of_copies", "mutations_of_originals",
+                       "slotted_hierarchy_copies"),
             "assumptions": ["tree depth far below the recursion limit", "classes are importable module-level classes (pickle requirement)"]}
